@@ -4,7 +4,7 @@
 From LolModel Require Import Base Selectors.
 From LolSpec Require Import CssSem.
 From LolModel Require Import Machine Rewriter.
-From LolProofs Require Import Css CssPred StackTree Bailout.
+From LolProofs Require Import Css CssPred StackTree Bailout TypedCounters.
 From Coq Require Import List.
 Import ListNotations.
 From Coq Require Import ZArith Lia.
@@ -65,6 +65,22 @@ Theorem C04_nth_child_index_is_the_sibling_position :
   ss_cumulative (build_state (stack_add_child s (lname_of_str name)) (lname_of_str name)) = e_index (fst (on_start t name n attrs sc)).
 Proof. exact nth_child_index_is_the_sibling_position. Qed.
 
+(* ... including the per-type counters of :nth-of-type / :first-of-type (TypedChildCounterMap: per element name a stack of
+   (count, depth) entries, popped when elements close): for every sequence of tags the stack, the child counters AND the
+   typed counters follow the tree (Rfull), and at every start tag the two indices the VM evaluates selectors with are the
+   element's position among all siblings and among the siblings of the same name. *)
+Theorem C04_vm_stack_and_counters_follow_the_tree :
+  forall ops c ext t c',
+  r_prog c <> None -> Rfull (r_stack c) t -> never_wraps t ops -> vm_run c ext ops = Some c' -> Rfull (r_stack c') (tree_run t ops).
+Proof. exact vm_stack_and_counters_follow_the_tree. Qed.
+Theorem C04_sibling_indices_are_the_positions_in_the_tree :
+  forall c ext name n attrs sc c' t,
+  r_prog c <> None -> Rfull (r_stack c) t -> small (length (siblings t)) -> vm_on_start c ext name n attrs sc = Some c' ->
+  Rfull (r_stack c') (after_start t name n sc) /\ r_prog c' <> None /\ indices_ok (r_stack c) t name.
+Proof. exact start_tag_keeps_stack_and_counters. Qed.
+Example C04_initial_stack_is_the_empty_tree : forall b, Rfull (new_vstack b) (mkTree [] []).
+Proof. exact new_vstack_full. Qed.
+
 (* Attribute bail-out and recovery (entry points, the parent's jumps, hereditary jumps, at any offset): running without
    attributes, bailing out, and resuming with attributes computes exactly what one execution with attributes computes,
    for every program, stack, element and attribute list. *)
@@ -94,3 +110,5 @@ Print Assumptions C04_nth_index_is_an_plus_b.
 Print Assumptions C04_predicate_decides_compound.
 Print Assumptions C04_vm_stack_is_the_tag_induced_tree.
 Print Assumptions C04_attribute_bailout_and_recovery_equal_one_phase_execution.
+Print Assumptions C04_vm_stack_and_counters_follow_the_tree.
+Print Assumptions C04_sibling_indices_are_the_positions_in_the_tree.
